@@ -36,9 +36,26 @@ func freePort() (int, error) {
 
 var e2eMethods = []string{"GET", "POST", "PUT", "DELETE", "PATCH", "HEAD", "OPTIONS"}
 
-// startE2E builds and starts the server; a port collision (other processes pick
-// ports at the same time) is retried, anything else is reported to the caller.
+// startE2E builds and starts the server of the e2e family.
 func startE2E(cfg jwtCfg, confIdx []int, tol time.Duration) (*e2eServer, error) {
+	return startServer(func(srv *rest.Server, mk func(path string) []rest.Route) {
+		var keys []rest.PrivateKeyConf
+		for _, i := range confIdx {
+			keys = append(keys, rest.PrivateKeyConf{Fingerprint: rsaKeys[i].Fingerprint, KeyFile: rsaKeys[i].File})
+		}
+		srv.AddRoutes(mk("/jwt"), rest.WithJwt(cfg.Secret))
+		srv.AddRoutes(mk("/jwtt"), rest.WithJwtTransition(cfg.Secret, cfg.Prev))
+		srv.AddRoutes(mk("/sig/:a/:b"), rest.WithSignature(rest.SignatureConf{Strict: true, Expiry: tol, PrivateKeys: keys}))
+		srv.AddRoutes(mk("/sig/:a/:b/:c"), rest.WithSignature(rest.SignatureConf{Strict: true, Expiry: tol, PrivateKeys: keys}))
+		srv.AddRoutes(mk("/loose/:a/:b"), rest.WithSignature(rest.SignatureConf{Strict: false, Expiry: tol, PrivateKeys: keys}))
+	})
+}
+
+// startServer builds a rest.Server, lets add bind the route groups (mk(path) =
+// one route per method, all reporting to the probe of the request in flight) and
+// starts it; a port collision (other processes pick ports at the same time) is
+// retried, anything else is reported to the caller.
+func startServer(add func(srv *rest.Server, mk func(path string) []rest.Route)) (*e2eServer, error) {
 	var lastErr error
 	for attempt := 0; attempt < 5; attempt++ {
 		port, err := freePort()
@@ -68,10 +85,6 @@ func startE2E(cfg jwtCfg, confIdx []int, tol time.Duration) (*e2eServer, error) 
 			}
 			protected(p).ServeHTTP(w, r)
 		}
-		var keys []rest.PrivateKeyConf
-		for _, i := range confIdx {
-			keys = append(keys, rest.PrivateKeyConf{Fingerprint: rsaKeys[i].Fingerprint, KeyFile: rsaKeys[i].File})
-		}
 		mk := func(path string) []rest.Route {
 			var rs []rest.Route
 			for _, m := range e2eMethods {
@@ -79,11 +92,7 @@ func startE2E(cfg jwtCfg, confIdx []int, tol time.Duration) (*e2eServer, error) 
 			}
 			return rs
 		}
-		srv.AddRoutes(mk("/jwt"), rest.WithJwt(cfg.Secret))
-		srv.AddRoutes(mk("/jwtt"), rest.WithJwtTransition(cfg.Secret, cfg.Prev))
-		srv.AddRoutes(mk("/sig/:a/:b"), rest.WithSignature(rest.SignatureConf{Strict: true, Expiry: tol, PrivateKeys: keys}))
-		srv.AddRoutes(mk("/sig/:a/:b/:c"), rest.WithSignature(rest.SignatureConf{Strict: true, Expiry: tol, PrivateKeys: keys}))
-		srv.AddRoutes(mk("/loose/:a/:b"), rest.WithSignature(rest.SignatureConf{Strict: false, Expiry: tol, PrivateKeys: keys}))
+		add(srv, mk)
 		failed := make(chan any, 1)
 		go func() {
 			defer func() {
